@@ -493,7 +493,9 @@ pub fn run_batch(scens: &[&'static Scenario], opts: &BatchOpts) -> BatchResult {
             for (seed, e) in &a.harness_errors {
                 eprintln!("HARNESS ERROR scenario={} seed={seed}: {e}", scen.name);
             }
-            exit = 2;
+            if exit == 0 {
+                exit = 2;
+            }
         }
         a.violations.sort_by_key(|v| v.0);
         if let Some((i, seed, v)) = a.violations.first().cloned() {
@@ -508,9 +510,8 @@ pub fn run_batch(scens: &[&'static Scenario], opts: &BatchOpts) -> BatchResult {
                 scen.name, min_v.class, min_v.key, min_v.msg
             );
             violation_lines.push(format!("VIOLATION property={} replay={}", scen.id, path));
-            if exit == 0 {
-                exit = 1;
-            }
+            // a violation shown against the real code outranks a run the harness could not judge
+            exit = 1;
         }
         for (k, (n, text)) in &a.known_seen {
             println!("KNOWN-FINDING: property={} {} [{}; seen in {} runs]", scen.id, text, k, n);
